@@ -75,7 +75,7 @@ def loop_traces(ctx, insts, name, **dims):
     env = dict(os.environ, NUMBA_DISABLE_JIT="1", PYTHONPATH=harness.VERIF, VERIF_REPO=harness.REPO)
     env.pop("NUMBA_CACHE_DIR", None)
     r = subprocess.run(["/venv/bin/python", "-m", "vt.looptrace", ip, op], env=env, capture_output=True, text=True,
-                       cwd=harness.VERIF, timeout=1800)
+                       cwd=harness.VERIF, timeout=5400)
     if r.returncode == 3:
         # loop head / locals not found: the kernel was rewritten.  Conformance drift, not a verdict on the tallies
         # (the replay legs judge the arrays the kernel returns).
